@@ -1,0 +1,121 @@
+//go:build verif
+
+package uePolicyContainer
+
+import "bytes"
+
+// Lemma functions for the deductive check in /verif: each encodes a structure built through the API and parses the
+// octets back, so that a round-trip statement becomes the postcondition of one function (contracts in
+// verif_contracts.go). Compiled only with -tags verif; never called.
+
+func verifLemmaPolicyPart(p UEPolicyPart) (*UEPolicyPart, int, error) {
+	b, err := p.MarshalBinary()
+	if err != nil {
+		return nil, 0, err
+	}
+	buf := bytes.NewBuffer(b)
+	q, err := parseUEPolicyPart(buf)
+	return q, buf.Len(), err
+}
+
+func verifLemmaResult(r Result) (*Result, int, error) {
+	b, err := r.MarshalBinary()
+	if err != nil {
+		return nil, 0, err
+	}
+	buf := bytes.NewBuffer(b)
+	q, err := parseResult(buf)
+	return q, buf.Len(), err
+}
+
+func verifLemmaInstruction2(upsc uint16, p0, p1 UEPolicyPart) (*Instruction, int, error) {
+	ins := Instruction{}
+	ins.SetUpsc(upsc)
+	ins.UEPolicySectionContents.AppendUEPolicyPart(&p0)
+	ins.UEPolicySectionContents.AppendUEPolicyPart(&p1)
+	b, err := ins.MarshalBinary()
+	if err != nil {
+		return nil, 0, err
+	}
+	buf := bytes.NewBuffer(b)
+	q, err := parseInstruction(buf)
+	return q, buf.Len(), err
+}
+
+func verifLemmaSubList(mcc, mnc int, upsc uint16, p0 UEPolicyPart) (*UEPolicySectionManagementSubList, int, error) {
+	ins := Instruction{}
+	ins.SetUpsc(upsc)
+	ins.UEPolicySectionContents.AppendUEPolicyPart(&p0)
+	sub := UEPolicySectionManagementSubList{}
+	if err := sub.SetPlmnDigit(mcc, mnc); err != nil {
+		return nil, 0, err
+	}
+	sub.UEPolicySectionManagementSubListContents.AppendInstruction(ins)
+	b, err := sub.MarshalBinary()
+	if err != nil {
+		return nil, 0, err
+	}
+	buf := bytes.NewBuffer(b)
+	q, err := parseUEPlcSublist(buf)
+	return q, buf.Len(), err
+}
+
+func verifLemmaList2(mcc0, mnc0, mcc1, mnc1 int, upsc0, upsc1 uint16, t0, t1 uint8, c0 [2]byte, c1 [3]byte) (UEPolicySectionManagementListContent, error) {
+	var list UEPolicySectionManagementListContent
+	for i := 0; i < 2; i++ {
+		ins := Instruction{}
+		sub := UEPolicySectionManagementSubList{}
+		part := UEPolicyPart{}
+		if i == 0 {
+			ins.SetUpsc(upsc0)
+			part.UEPolicyPartType.SetPartType(t0)
+			part.SetPartContent(c0[:])
+			if err := sub.SetPlmnDigit(mcc0, mnc0); err != nil {
+				return nil, err
+			}
+		} else {
+			ins.SetUpsc(upsc1)
+			part.UEPolicyPartType.SetPartType(t1)
+			part.SetPartContent(c1[:])
+			if err := sub.SetPlmnDigit(mcc1, mnc1); err != nil {
+				return nil, err
+			}
+		}
+		ins.UEPolicySectionContents.AppendUEPolicyPart(&part)
+		sub.UEPolicySectionManagementSubListContents.AppendInstruction(ins)
+		list.AppendSublist(sub)
+	}
+	b, err := list.MarshalBinary()
+	if err != nil {
+		return nil, err
+	}
+	var got UEPolicySectionManagementListContent
+	err = got.UnmarshalBinary(b)
+	return got, err
+}
+
+func verifLemmaSubResult2(mcc, mnc int, r0, r1 Result) (*UEPolicySectionManagementSubResult, int, error) {
+	sub := UEPolicySectionManagementSubResult{}
+	if err := sub.SetPlmnDigit(mcc, mnc); err != nil {
+		return nil, 0, err
+	}
+	sub.UEPolicySectionManagementSubResultContents.AppendResult(r0)
+	sub.UEPolicySectionManagementSubResultContents.AppendResult(r1)
+	b, err := sub.MarshalBinary()
+	if err != nil {
+		return nil, 0, err
+	}
+	buf := bytes.NewBuffer(b)
+	q, err := parseUEPlcSubResult(buf)
+	return q, buf.Len(), err
+}
+
+func verifLemmaMessage(u *UePolDeliverySer) (*UePolDeliverySer, []byte, error) {
+	b, err := u.UePolDeliverySerEncode()
+	if err != nil {
+		return nil, nil, err
+	}
+	v := NewUePolDeliverySer()
+	err = v.UePolDeliverySerDecode(b)
+	return v, b, err
+}
